@@ -567,6 +567,14 @@ def n_r5_headers(p: Project, rep: Report):
     for r in rets:
         d = {}
         lit = r.value
+        # a copy / selection of a dict built first: {k: v for k, v in <name>.items() [if ...]}
+        if isinstance(lit, ast.DictComp) and len(lit.generators) == 1 and isinstance(lit.generators[0].iter, ast.Call) and isinstance(lit.generators[0].iter.func, ast.Attribute) and lit.generators[0].iter.func.attr == "items" and isinstance(lit.generators[0].iter.func.value, ast.Name):
+            g_ = lit.generators[0]
+            tgt_ = [e.id for e in g_.target.elts] if isinstance(g_.target, ast.Tuple) and all(isinstance(e, ast.Name) for e in g_.target.elts) else []
+            if len(tgt_) == 2 and text(lit.key) == tgt_[0] and text(lit.value) == tgt_[1]:
+                dropped_ = [f_ for f_ in g_.ifs if any(isinstance(n_, ast.Name) and n_.id == tgt_[1] for n_ in ast.walk(f_))]
+                rep.check("N-R5", "http_headers:every-header-sent", not dropped_, f"headers are filtered by their value (`if {text(dropped_[0])[:40]}`): a client configured with a blank user agent - the documented setting for servers that turn Python clients away - sends no User-Agent header at all, and urllib then adds its own `Python-urllib/3.x`" if dropped_ else "", loc(p, r))
+                lit = g_.iter.func.value
         if isinstance(lit, ast.Name):
             # a dict filled key by key: <name> = {...} ; <name>[k] = v ...
             nm = lit.id
@@ -921,3 +929,48 @@ def _ancestors(node, top):
         out.append(cur)
         cur = parent(cur)
     return out
+
+
+def n_r14_msgset_wiring(p: Project, rep: Report):
+    """two tables of one relation: which message set serves which kind of request"""
+    rep.rule("N-R14", "the URL a credentialed request is sent to is the one the profile advertises FOR ITS OWN message set: every pairing <X>MSGSET -> request tuple in _get_service_urls (the class map, module-level or local, and the closing-statement calls) names the message set whose request wrapper <X>MSGSRQV1 the module's own wrap_stmtrq handler puts that tuple's requests in - the two tables are siblings and must agree (an investment statement request routed by SECLISTMSGSET's URL goes, with the user's credentials, to a server the profile did not name for it)")
+    m = p.module(CLIENT)
+    ci = client_class(p)
+    # table 1: request tuple -> message-set request wrapper, from the singledispatch handlers
+    wrapper = {}
+    for st in m.tree.body:
+        if not isinstance(st, ast.FunctionDef):
+            continue
+        for d in st.decorator_list:
+            if isinstance(d, ast.Call) and isinstance(d.func, ast.Attribute) and d.func.attr == "register" and d.args and isinstance(d.args[0], ast.Name):
+                for r in ast.walk(st):
+                    if isinstance(r, ast.Return) and isinstance(r.value, ast.Tuple) and r.value.elts and isinstance(r.value.elts[0], ast.Name) and r.value.elts[0].id.endswith("MSGSRQV1"):
+                        wrapper[d.args[0].id] = r.value.elts[0].id[: -len("MSGSRQV1")]
+    if len(wrapper) < 5:
+        rep.note(f"N-R14 undecided: only {len(wrapper)} request wrappers recognised")
+        return
+    fn = ci.own_func("_get_service_urls")
+    if fn is None:
+        raise AnalysisError("OFXClient._get_service_urls not found")
+    pairs = []
+    dicts = [d for d in ast.walk(fn) if isinstance(d, ast.Dict)]
+    # a class map hoisted to module level and used by name
+    for nm in {x.id for x in ast.walk(fn) if isinstance(x, ast.Name)}:
+        for st in m.tree.body:
+            tg = st.targets[0] if isinstance(st, ast.Assign) and len(st.targets) == 1 else (st.target if isinstance(st, ast.AnnAssign) else None)
+            if isinstance(tg, ast.Name) and tg.id == nm and isinstance(getattr(st, "value", None), ast.Dict):
+                dicts.append(st.value)
+    for d in dicts:
+        for k, v in zip(d.keys, d.values):
+            if isinstance(k, ast.Name) and k.id.endswith("MSGSET") and isinstance(v, ast.Name):
+                pairs.append((k.id, v.id, k))
+    for c in ast.walk(fn):
+        if isinstance(c, ast.Call) and len(c.args) == 2 and all(isinstance(a, ast.Name) for a in c.args) and c.args[0].id.endswith("MSGSET") and c.args[1].id in wrapper:
+            pairs.append((c.args[0].id, c.args[1].id, c))
+    for ms, rq, node in pairs:
+        if rq not in wrapper:
+            continue
+        stem = ms[: -len("MSGSET")]
+        ok = stem == wrapper[rq]
+        rep.check("N-R14", f"_get_service_urls:{rq}<-{ms}", ok, f"{rq} requests are sent to the URL of {ms}, but wrap_stmtrq puts them in {wrapper[rq]}MSGSRQV1: the profile's URL for {wrapper[rq]}MSGSET is the one that serves them" if not ok else "", loc(p, node))
+    rep.floor("N-R14", len(pairs), 5, "message-set / request-tuple pairings")
